@@ -537,3 +537,21 @@ impl StandardLinearModel {
         self.to_string()
     }
 }
+
+#[cfg(feature = "verif_hooks")]
+impl StandardLinearModel {
+    /// Read-only view for the verification harness: variables, objective, offset, flip flag, rows.
+    #[allow(clippy::type_complexity)]
+    pub fn verif_parts(&self) -> (Vec<String>, Vec<f64>, f64, bool, Vec<(Vec<f64>, f64)>) {
+        (
+            self.variables.clone(),
+            self.objective.clone(),
+            self.objective_offset,
+            self.flip_objective,
+            self.constraints
+                .iter()
+                .map(|c| (c.coefficients.clone(), c.rhs))
+                .collect(),
+        )
+    }
+}
